@@ -64,7 +64,9 @@ def r15_1(ctx, rc):
         for n in sg.nodes:
             refusal = False
             if n.kind == 'out' and n.cn.kind == 'raise':
-                refusal = True
+                # a bare ``raise`` in a handler passes on a failure that is
+                # already in progress; it is not a refusal decision
+                refusal = getattr(n.cn.ast, 'exc', None) is not None
             elif n.kind == 'leaf' and not _is_effect_begin(ctx, n):
                 refusal = any(isinstance(l, tuple) and l[0] == 'exc'
                               for _, l in n.succ)
@@ -168,9 +170,14 @@ def r15_3(ctx, rc):
                 for t in n.targets:
                     if isinstance(t, ast.Attribute):
                         attr = t.attr
+        def removed_attr(c):
+            a = c.args[0]
+            cn = ctx.H.node_of(ex, c)
+            if cn:
+                a = ctx.H.subst(a, ex, cn[0])      # through a local
+            return a.attr if isinstance(a, ast.Attribute) else None
         ok = bool(paired) and attr is not None and any(
-            isinstance(c.args[0], ast.Attribute) and c.args[0].attr == attr
-            for c in paired if c.args)
+            removed_attr(c) == attr for c in paired if c.args)
         if not ok:
             rc.violation('tempdir-unpaired | ' + cls,
                          'mkdtemp in %s.__enter__ has no matching rmtree of '
